@@ -3,11 +3,11 @@
 Reads /tmp/confirm-summary*.txt (tools/confirm_seed.sh) and /tmp/seedres-summary.txt + /tmp/seedres-*.txt (tools/try_seed.sh)."""
 import glob, json, os, re, shutil, sys
 ROUND = sys.argv[1] if len(sys.argv) > 1 else "1"
-OUT = {"1": "/tmp/seed/out", "2": "/tmp/seed/out2", "3": "/tmp/seed/out3", "4": "/tmp/seed/out4", "5": "/tmp/seed/out5"}[ROUND]
-CONF = {"1": "/tmp/confirm-summary*.txt", "2": "/tmp/confirm2-summary*.txt", "3": "/tmp/confirm3-summary*.txt", "4": "/tmp/confirm4-summary*.txt", "5": "/tmp/confirm5-summary*.txt"}[ROUND]
-SUMM = {"1": "/tmp/seedres-summary.txt", "2": "/tmp/seedres2-summary.txt", "3": "/tmp/seedres3-summary.txt", "4": "/tmp/seedres4-summary.txt", "5": "/tmp/seedres5-summary.txt"}[ROUND]
-RES = {"1": "/tmp/seedres-", "2": "/tmp/seedres2-", "3": "/tmp/seedres3-", "4": "/tmp/seedres4-", "5": "/tmp/seedres5-"}[ROUND]
-SUFFIX = {"1": "", "2": "R2-", "3": "R3-", "4": "R4-", "5": "R5-"}[ROUND]
+OUT = {"1": "/tmp/seed/out", "2": "/tmp/seed/out2", "3": "/tmp/seed/out3", "4": "/tmp/seed/out4", "5": "/tmp/seed/out5", "6": "/tmp/seed/out6"}[ROUND]
+CONF = {"1": "/tmp/confirm-summary*.txt", "2": "/tmp/confirm2-summary*.txt", "3": "/tmp/confirm3-summary*.txt", "4": "/tmp/confirm4-summary*.txt", "5": "/tmp/confirm5-summary*.txt", "6": "/tmp/confirm6-summary*.txt"}[ROUND]
+SUMM = {"1": "/tmp/seedres-summary.txt", "2": "/tmp/seedres2-summary.txt", "3": "/tmp/seedres3-summary.txt", "4": "/tmp/seedres4-summary.txt", "5": "/tmp/seedres5-summary.txt", "6": "/tmp/seedres6-summary.txt"}[ROUND]
+RES = {"1": "/tmp/seedres-", "2": "/tmp/seedres2-", "3": "/tmp/seedres3-", "4": "/tmp/seedres4-", "5": "/tmp/seedres5-", "6": "/tmp/seedres6-"}[ROUND]
+SUFFIX = {"1": "", "2": "R2-", "3": "R3-", "4": "R4-", "5": "R5-", "6": "R6-"}[ROUND]
 conf = {}
 for f in glob.glob(CONF) + (['/tmp/confirm-ok.txt'] if ROUND == '1' else []):
     if os.path.exists(f):
